@@ -93,8 +93,15 @@ def thermo_values(cfgseed, fields=None):
         # the values of a field follow its NAME (position in the mechanism-ordered list), wherever it sits in the header
         fi = THERMO_FIELDS.index(name) + 1
         rng = np.random.default_rng(gamma._tok_seed(cfgseed, ("thermo", lv, b, fi)))
+        # one configuration in three carries what real plotfiles carry: DEAD cells (temperature 0 and every mass fraction 0, as
+        # under an embedded boundary), under- and overshoots of the advection scheme (slightly negative mass fractions, one
+        # slightly above 1) and negative zeros.  Kept fields must come out bit-identical there too
+        rough = cfgseed % 3 == 1
+        dead = np.random.default_rng(gamma._tok_seed(cfgseed, ("dead", lv, b))).random(shape) < (0.06 if rough else -1.0)
         if name == "temp":
-            return rng.uniform(400.0, 2400.0, shape)
+            t = rng.uniform(400.0, 2400.0, shape)
+            t[dead] = 0.0
+            return t
         if name.startswith("Y("):
             # normalised below through a common positive weight: use a fixed positive draw and scale
             w = rng.uniform(0.05, 1.0, shape)
@@ -102,7 +109,14 @@ def thermo_values(cfgseed, fields=None):
             for k in range(len(SPECIES)):
                 r2 = np.random.default_rng(gamma._tok_seed(cfgseed, ("thermo", lv, b, 3 + k)))
                 tot += r2.uniform(0.05, 1.0, shape)
-            return w / tot
+            y = w / tot
+            if rough:
+                pick = rng.random(shape)
+                y[pick < 0.05] *= -1e-6
+                y[(pick >= 0.05) & (pick < 0.07)] = 1.0000004
+                y[(pick >= 0.07) & (pick < 0.09)] = -0.0
+                y[dead] = 0.0
+            return y
         return rng.uniform(-50.0, 50.0, shape)
     return values
 
@@ -122,7 +136,13 @@ def new_expected(recipe, arrs, shape, thermo, pressure=None):
     nout = nnew_of(recipe)
     kind_, sel_ = split_recipe(recipe)
     out = [np.empty(shape) for _ in range(nout)]
+    # cells without a thermodynamic state (temperature 0 or no mass at all): what the recipe gives there is not judged
+    dead = np.isclose(T, 0) | np.isclose(np.sum(Y, axis=-1), 0)
     for ijk in np.ndindex(*shape):
+        if dead[ijk]:
+            for o in out:
+                o[ijk] = np.nan
+            continue
         gas.TPY = T[ijk], (pressure or PRESSURE_ATM) * ct.one_atm, Y[ijk]
         if sel_ is not None:
             if kind_ == "SRi":
@@ -203,8 +223,8 @@ def chef_kwargs(recipe, pressure=None):
 def close(a, b, thermo):
     if not thermo:
         return np.array_equal(a, b, equal_nan=True)
-    scale = max(1.0, float(np.max(np.abs(b)))) if b.size else 1.0
-    return bool(np.all(np.abs(a - b) <= 1e-9 * np.maximum(np.abs(b), 1e-6 * scale) + 1e-300))
+    scale = max(1.0, float(np.nanmax(np.abs(b)))) if b.size and not np.all(b != b) else 1.0
+    return bool(np.all((b != b) | (np.abs(a - b) <= 1e-9 * np.maximum(np.abs(b), 1e-6 * scale) + 1e-300)))
 
 
 def run_scenario(chk, sc, cfgseed, recipe, flavour="sched", workers=None, pressure=None, serial=None):
@@ -309,7 +329,7 @@ def run_scenario(chk, sc, cfgseed, recipe, flavour="sched", workers=None, pressu
                 for which, fun in (("mins", np.min), ("maxs", np.max)):
                     hv = C[which][bi][j]
                     tv = float(fun(a))
-                    if not (compare.same_float(hv, tv) or hv == tv):
+                    if not (compare.same_float(hv, tv) or hv == tv or (hv != hv and tv != tv)):
                         return "level %d box %d: %s[%r] = %r, true extremum of the written data %r" % (
                             l, bi, which, ofields[j], hv, tv)
     Cin = alpha.content(alpha.abstract(src, reg))
